@@ -44,6 +44,27 @@ def gen_lin_domain(rng, near_degenerate=False):
     return (float(a), float(b)) if rng.random() < 0.8 else (float(b), float(a))
 
 
+def gen_threshold_case(rng):
+    """(a, b, m) whose tick-step error m / span * 10^k sits a little (0.2 … 2 %) above or below one of the three thresholds at which the step
+    switches between 1, 2, 5 and 10 times a power of ten — where a misplaced or blurred threshold shows as one tick too few or too many"""
+    m = rng.choice([rng.randint(2, 100), rng.choice([23, 30, 37, 44, 51, 58, 65, 72, 79, 86, 93, 99, 10, 5])])
+    step0 = 10.0 ** rng.randint(-4, 5)
+    thr = rng.choice([0.15, 0.35, 0.75])
+    e = thr * (1 + rng.choice([-1, 1]) * rng.choice([0.002, 0.004, 0.008, 0.012, 0.02]))
+    span = m * step0 / e
+    a = rng.choice([0.1, 0.37, -2.6, 13.0, rng.uniform(-50, 50)]) * step0 * rng.choice([1, 1, 10])
+    return a, a + span, m
+
+
+def gen_epoch_case(rng):
+    """(a, b, m): whole-number end points of the magnitude of epoch milliseconds a short whole-number span apart, with a count that gives a
+    whole-number step — every value involved is exactly representable, so the answer is exact although the span is 1e-10 of the magnitude"""
+    a = float(rng.choice([1700000001234, 946684800000, 1234567890123, -2208988800000]) + rng.randint(0, 999))
+    span = float(rng.randint(20, 90) if rng.random() < 0.7 else rng.randint(30, 5000))     # steps 1, 2, 5 (last digit of a 13-digit number) and larger
+    m = rng.choice([None, 10, 5, 3, 7])
+    return (a, a + span, m) if rng.random() < 0.7 else (a + span, a, m)
+
+
 def pick_m(rng):
     return rng.choice([None, 10, 1, 2, 3, 4, 5, 7, 8, 12, 20, 33, 50, 64, 99, 100, rng.randint(1, 100)])
 
@@ -239,6 +260,10 @@ def body_c13(tier, seed, rep, only_prop=False, scale=1):
     for _ in range(common.count(tier, 9000, 150000) * scale):
         a, b = gen_lin_domain(rng)
         m = pick_m(rng)
+        if rng.random() < 0.08:
+            a, b, m = gen_threshold_case(rng)
+        elif rng.random() < 0.05:
+            a, b, m = gen_epoch_case(rng)
         meta = {"kind": "lticks", "a": a, "b": b, "m": m}
         try:
           with time_limit(10):
@@ -309,6 +334,10 @@ def body_c14(tier, seed, rep, only_prop=False, scale=1):
     for _ in range(common.count(tier, 6000, 150000) * scale):
         a, b = gen_lin_domain(rng)
         m = pick_m(rng)
+        if rng.random() < 0.08:
+            a, b, m = gen_threshold_case(rng)
+        elif rng.random() < 0.05:
+            a, b, m = gen_epoch_case(rng)
         meta = {"kind": "lnice", "a": a, "b": b, "m": m}
         if rng.random() < 0.2:
             # before the judged call, COPIES of the scale are used (made nice with another count, given another domain, asked for ticks):
